@@ -1,26 +1,27 @@
 #!/bin/bash
-# seed_verify.sh <ID>: confirms in the scratch worktree /tmp/mut/<ID> that out/patch.diff keeps the 33 tests green
+# seed_verify.sh <ID> [out|out2]: confirms in the scratch worktree /tmp/mut/<ID> that $OUT/patch.diff keeps the 33 tests green
 # and that the demonstration fails with the change and passes without it. Leaves src/ unmodified.
 ID=$1
+OUT=${2:-out}
 W=/tmp/mut/$ID
 export CARGO_NET_OFFLINE=true CARGO_TARGET_DIR=/tmp/mut/target-shared
 cd $W || exit 2
-git checkout -q -- . ; git clean -qfd src tests 2>/dev/null
+git checkout -q -- . ; git clean -qfd src tests examples 2>/dev/null
 DEMO=$(python3 -c "
 import json,re
-c=json.load(open('$W/out/meta.json'))['demo_cmd']
+c=json.load(open('$W/$OUT/meta.json'))['demo_cmd']
 m=re.search(r'cargo test.*', c)
 print(m.group(0) if m else c)")
 echo "== $ID demo_cmd: $DEMO"
-git apply out/patch.diff || { echo "patch does not apply"; exit 1; }
+git apply $OUT/patch.diff || { echo "patch does not apply"; exit 1; }
 T=$(cargo test --lib --offline 2>&1 | grep "test result" | head -1); echo "with patch, suite: $T"
 cargo build --offline --features verif_hooks 2>&1 | tail -1
-[ -f out/demo.diff ] && git apply out/demo.diff
+[ -f $OUT/demo.diff ] && git apply $OUT/demo.diff
 ( eval "$DEMO" ) > /tmp/mut/$ID.with.log 2>&1; RC1=$?
 echo "demo with patch: rc=$RC1 $(grep 'test result' /tmp/mut/$ID.with.log | head -1)"
-git checkout -q -- . ; git clean -qfd src tests 2>/dev/null
-[ -f out/demo.diff ] && git apply out/demo.diff
+git checkout -q -- . ; git clean -qfd src tests examples 2>/dev/null
+[ -f $OUT/demo.diff ] && git apply $OUT/demo.diff
 ( eval "$DEMO" ) > /tmp/mut/$ID.without.log 2>&1; RC2=$?
 echo "demo without patch: rc=$RC2 $(grep 'test result' /tmp/mut/$ID.without.log | head -1)"
-git checkout -q -- . ; git clean -qfd src tests 2>/dev/null
+git checkout -q -- . ; git clean -qfd src tests examples 2>/dev/null
 if [ $RC1 -ne 0 ] && [ $RC2 -eq 0 ] && echo "$T" | grep -q "33 passed; 0 failed"; then echo "CONFIRMED $ID"; else echo "NOT CONFIRMED $ID"; fi
